@@ -1844,6 +1844,71 @@ def rule_finalizerun(ctx) -> RuleResult:
 
 
 # ---------------------------------------------------------------------------------------------
+# R-SEMNEUTRAL (C12, C05): what is asked of the blueprint does not depend on where the data live.
+# groupby_reduce turns the user's request into the arguments of `_initialize_aggregation` (func, dtype, fill_value, the implicit min_count,
+# finalize_kwargs); everything after that is plan-specific execution.  "Eager and chunked give the same mapping" therefore needs those
+# arguments to be decided without consulting chunkedness or the plan: no assignment that reaches them -- value or enclosing test, through
+# locals -- reads any_by_dask / has_dask / has_cubed / is_duck_dask_array(...) / method / reindex.
+_CHUNKY = {"any_by_dask", "by_is_dask", "has_dask", "has_cubed", "is_duck_dask_array", "is_duck_cubed_array", "is_chunked_array", "method", "reindex", "preferred_method"}
+
+
+def rule_semneutral(ctx) -> RuleResult:
+    res = RuleResult("R-SEMNEUTRAL", "the request handed to the blueprint (func, dtype, fill_value, implicit min_count) is decided without consulting chunkedness or the plan", min_instances=3)
+    f = ctx.prog.func("core.groupby_reduce")
+    init = next((c for c in calls_in(f.node) if norm(c.func).split(".")[-1] == "_initialize_aggregation"), None)
+    if init is None:
+        raise AnalysisError("groupby_reduce no longer calls _initialize_aggregation (anchor)")
+    pm = parents_map(f.node)
+    # flag closure: names, followed through locals that hold a *flag* (bound to a boolean expression / predicate call) -- not through arrays,
+    # whose flow-insensitive history (by_ is re-bound in plan-specific branches further down) says nothing about this decision
+    flagdefs: dict[str, list] = {}
+    for a in walk_own(f.node):
+        if isinstance(a, (ast.Assign, ast.AnnAssign)) and a.value is not None:
+            for t in (a.targets if isinstance(a, ast.Assign) else [a.target]):
+                if isinstance(t, ast.Name) and (isinstance(a.value, (ast.BoolOp, ast.Compare)) or (isinstance(a.value, ast.UnaryOp) and isinstance(a.value.op, ast.Not))
+                                                or (isinstance(a.value, ast.Call) and norm(a.value.func).split(".")[-1] in ("any", "all", "bool", "is_duck_dask_array", "is_duck_cubed_array", "is_chunked_array"))):
+                    flagdefs.setdefault(t.id, []).append(a.value)
+
+    def flag_closure(e) -> set[str]:
+        out, work = set(), list(names_in(e))
+        while work:
+            nm = work.pop()
+            if nm in out:
+                continue
+            out.add(nm)
+            for v in flagdefs.get(nm, ()):
+                work.extend(names_in(v))
+        return out
+
+    requested = [a.id for a in init.args if isinstance(a, ast.Name)] + [k.value.id for k in init.keywords if isinstance(k.value, ast.Name)]
+    for name in requested:
+        stores = [a for a in walk_own(f.node) if isinstance(a, (ast.Assign, ast.AnnAssign)) and a.value is not None
+                  and any(isinstance(t, ast.Name) and t.id == name for t in (a.targets if isinstance(a, ast.Assign) else [a.target])) and a.lineno < init.lineno]
+        if not stores:
+            res.inst(f"groupby_reduce: `{name}` reaches the blueprint as given", f"{name}|param")
+            continue
+        for a in stores:
+            deps = flag_closure(a.value) - {name}
+            tests = []
+            cur, child = pm.get(id(a)), a
+            while cur is not None and cur is not f.node:
+                if isinstance(cur, (ast.If, ast.While)):
+                    tests.append(cur.test)
+                elif isinstance(cur, ast.IfExp):
+                    tests.append(cur.test)
+                child, cur = cur, pm.get(id(cur))
+            for t in tests:
+                deps |= flag_closure(t)
+            hit = sorted(deps & _CHUNKY)
+            res.inst(f"groupby_reduce: '{norm(a)[:50]}' (line of `{name}`) depends on chunkedness / plan names: {hit or 'none'}", f"{name}|{norm(a)[:40]}")
+            if hit:
+                res.report(f"core.groupby_reduce|request-depends-on-chunkedness|{name}|{'+'.join(hit)}", f.where(a), f.qualname,
+                           f"'{norm(a)[:60]}' decides `{name}` -- an argument of _initialize_aggregation -- from {hit}: the same call then asks a different reduction of a "
+                           "chunked input than of an in-memory one (an all-NaN group gets fill_value from dask labels and the reduction's own value eagerly)")
+    return res
+
+
+# ---------------------------------------------------------------------------------------------
 # R-PREDFAMILY (C11, C19): the `_is_*_reduction(func: T_Agg)` predicates treat both spellings of a reduction alike.
 # `func` may be a name or an Aggregation object (flox.aggregations.max_ is a legal argument).  Every predicate of the family either turns the
 # object into its name (`if isinstance(func, Aggregation): func = func.name`) or tests the object explicitly; one that only recognises strings
